@@ -61,7 +61,7 @@ type WL struct {
 var kindsFor = map[string][]string{
 	"loaddir": {"frag_byte", "frag_byte", "frag_trunc", "frag_extend", "frag_swap", "frag_remove", "manifest_byte", "manifest_byte", "manifest_byte", "manifest_trunc",
 		"mf_count", "mf_cbytes", "mf_sha", "mf_path", "mf_phase", "mf_codec", "mf_graphcount", "mf_nodecount", "mf_dropmetrics", "mf_metrics_value", "extra_garbage_manifest",
-		"resigned_bad_edge", "resigned_bad_edge", "resigned_dup_node", "resigned_bad_type", "resigned_bad_type", "mf_path_alias"},
+		"resigned_bad_edge", "resigned_bad_edge", "resigned_dup_node", "resigned_bad_type", "resigned_bad_type", "mf_path_alias", "mf_zero_count", "mf_zero_count", "mf_forged_zero_entry"},
 	"tarload": {"byte", "byte", "trunc", "extend", "hostile", "hostile", "hostile", "readerr"},
 	"unpackenc": {"byte", "byte", "trunc", "extend", "frame_swap", "frame_dup", "frame_drop", "frame_dropfinal", "frame_type", "wrongkey", "hostile", "readerr", "inner_frag_byte", "inner_alias_corrupt", "inner_alias_only"},
 	"unpack":    {"byte", "byte", "trunc", "extend", "frame_swap", "frame_dup", "frame_drop", "frame_dropfinal", "frame_type", "wrongkey", "hostile", "hostile", "readerr", "inner_frag_byte", "inner_alias_corrupt", "inner_alias_only"},
@@ -74,9 +74,17 @@ var consumers = []string{"loaddir", "loaddir", "tarload", "unpackenc", "unpack",
 
 func gen(r *rand.Rand) WL {
 	w := WL{DB: stor.GenDB(r, 2, 5, 6)}
-	// at least one node so that fragments exist
-	if len(w.DB.Graphs[0].Nodes) == 0 {
-		w.DB.Graphs[0].Nodes = []stor.NodeSpec{{ID: 7, Kinds: []string{"User"}, Props: map[string]any{"name": "x"}}}
+	// at least one node somewhere so that fragments exist; an empty graph may come first
+	if r.IntN(5) == 0 {
+		w.DB.Graphs = append([]stor.GraphSpec{{Name: "empty first"}}, w.DB.Graphs...)
+	}
+	hasNodes := false
+	for _, g := range w.DB.Graphs {
+		hasNodes = hasNodes || len(g.Nodes) > 0
+	}
+	if !hasNodes {
+		last := &w.DB.Graphs[len(w.DB.Graphs)-1]
+		last.Nodes = []stor.NodeSpec{{ID: 7, Kinds: []string{"User"}, Props: map[string]any{"name": "x"}}}
 	}
 	n := 0
 	for _, g := range w.DB.Graphs {
@@ -837,6 +845,43 @@ func (a *art) runLoadDir(mu Mut) (string, string) {
 				}
 				g, _ := gs[int(mu.A)%len(gs)].(map[string]any)
 				g["node_count"] = bump(g["node_count"], 1)
+			case "mf_zero_count":
+				// a self-consistent manifest (totals still equal the per-file sums, no metrics block to contradict it)
+				// that declares an existing, non-empty fragment to hold zero records
+				if !has {
+					return false
+				}
+				old, _ := f["count"].(json.Number)
+				n, _ := old.Int64()
+				if n == 0 {
+					return false
+				}
+				f["count"] = json.Number("0")
+				gs, _ := m["graphs"].([]any)
+				for _, g := range gs {
+					gm, _ := g.(map[string]any)
+					fs, _ := gm["files"].([]any)
+					for _, x := range fs {
+						if xm, _ := x.(map[string]any); fmt.Sprint(xm["path"]) == fmt.Sprint(f["path"]) {
+							key := "node_count"
+							if f["phase"] == "edges" {
+								key = "edge_count"
+							}
+							gm[key] = bump(gm[key], -n)
+						}
+					}
+				}
+				delete(m, "metrics")
+			case "mf_forged_zero_entry":
+				gs, _ := m["graphs"].([]any)
+				if len(gs) == 0 {
+					return false
+				}
+				gm, _ := gs[int(mu.A)%len(gs)].(map[string]any)
+				fs, _ := gm["files"].([]any)
+				gm["files"] = append(fs, map[string]any{"phase": "edges", "path": "graphs/forged/edges-000099.jsonl", "count": json.Number("0"),
+					"compressed_bytes": json.Number("0"), "uncompressed_bytes": json.Number("0"), "sha256": strings.Repeat("0", 64), "action_counts": map[string]any{}})
+				delete(m, "metrics")
 			case "mf_dropmetrics":
 				if !a.w.Verify {
 					return false
@@ -859,6 +904,9 @@ func (a *art) runLoadDir(mu Mut) (string, string) {
 			return "", ""
 		}
 		os.WriteFile(mp, nb, 0o600)
+		if mu.Kind == "mf_zero_count" || mu.Kind == "mf_forged_zero_entry" {
+			forceNoVerify = true
+		}
 	}
 	a.evals++
 	a.counters["loaddir_"+mu.Kind]++
